@@ -221,6 +221,24 @@ theorem legacy_equiv :
       = [true, g3.isLegacyRequired, g3.isOpenEnum, g3.isPacked, g3.isUTF8Validated, g3.isDelimitedEncoded, g3.isJSONCompliant] := by
   refine ⟨by decide, by decide, by decide⟩
 
+/-! ### UTF-8 validation of extension fields (finding) -/
+
+/- FULL STATEMENT (false of the current code): `∀ ed isExt f, runtimeEnforceUTF8 ed isExt f = enforceUTF8 f`
+   i.e. the codecs validate UTF-8 exactly when the resolved `utf8_validation` is VERIFY.
+   `*filedesc.Extension` lacks the `EnforceUTF8()` method `strs.EnforceUTF8` looks for, so for an extension declared
+   in an editions file the resolved feature is ignored and UTF-8 is never validated. -/
+theorem runtime_utf8_false :
+    ¬ ∀ ed isExt f, runtimeEnforceUTF8 ed isExt f = enforceUTF8 f := by
+  intro h
+  exact absurd (h edition2023 true g23) (by decide)
+
+theorem runtime_utf8_partial (ed : Nat) (f : GoFeatures) : runtimeEnforceUTF8 ed false f = enforceUTF8 f := rfl
+
+/-- … and extensions of proto2 / proto3 files behave as the edition defaults say. -/
+theorem runtime_utf8_ext_legacy :
+    runtimeEnforceUTF8 editionProto2 true g2 = enforceUTF8 g2 ∧ runtimeEnforceUTF8 editionProto3 true g3 = enforceUTF8 g3 := by
+  decide
+
 /-! ### enum-level features: protodesc honours them, internal/filedesc does not (finding) -/
 
 /- FULL STATEMENT for the compact builder (false of the current code):
